@@ -291,8 +291,39 @@ theorem entry_run (G : GCtx) (hG : G.OK) (fuel : Nat) (g : String) (fd : FnDef) 
     obtain ⟨k, hk⟩ := hcall 0
     rw [hcode, hlim] at hk
     simp only [List.map_nil, List.nil_append] at hk
-    refine ⟨k + 1, fun quantum hq vfuel => ⟨_, ?_, rfl, rfl, rfl, hstk⟩⟩
+    refine ⟨k + 1, fun quantum hq vfuel =>
+      ⟨mkS (G.withPolls (G.s.polls + 1)).s [] mp (0 + k) stk' mem' st'.out, ?_, rfl, rfl, rfl, hstk⟩⟩
     obtain ⟨j, rfl⟩ : ∃ j, quantum = k + (j + 1) := ⟨quantum - k - 1, by omega⟩
     rw [hrun, runQuantum_of_execN G.code G.lim (j + 1) k _ _ hk, runQuantum_done G.code G.lim j _ rfl]
+
+/-- A compiled function without trailing expression is `FnVoidOK` (as `FnOK.of_relocate`). -/
+theorem FnVoidOK.of_relocate (G : GCtx) (fd : FnDef) (stmts : List Stmt) (φ : String → Option String)
+    (scopes0 : CScopes) (vm0 : List (String × Nat)) (lm0 : LM) (T : List String) (r : NCode)
+    (hbody : ∃ bsp bty, fd.body = .mk bsp bty stmts none)
+    (hparams : ∀ p ∈ fd.params, p.isSingleton = false)
+    (hrel : relocate (cgFn G.mod φ fd stmts none scopes0 vm0 lm0) = some r)
+    (hnodup : (definedLabels (cgFn G.mod φ fd stmts none scopes0 vm0 lm0)).Nodup)
+    (hcode : findCode G.code (mangleFnName G.mod fd.name) = some (renameVars r))
+    (hslot : ∀ m ∈ varNames r, slotFn r m < (fnParts G.mod φ fd stmts none scopes0 vm0 lm0).envE.nv)
+    (hframe : (fnParts G.mod φ fd stmts none scopes0 vm0 lm0).envE.nv ≤ G.F)
+    (okS : Frag.okGSs false stmts = true)
+    (wsS : Frag.wsGSs G.mod fd.name φ [] stmts (fnParts G.mod φ fd stmts none scopes0 vm0 lm0).envB = true)
+    (tParams : ∀ p ∈ fd.params, p.name ∈ T) (tIdents : ∀ x ∈ Frag.identsGSs stmts, x ∈ T)
+    (key : cleanupKey G.mod fd.name ∉ T)
+    (outer : ∀ sc ∈ scopes0, ∀ x ∈ T, sc.lookup x = none) (phi : PhiOK G φ) :
+    FnVoidOK G fd.name fd
+      ⟨renameVars r, slotFn r, labelIndex (cgFn G.mod φ fd stmts none scopes0 vm0 lm0), (· ∈ varNames r), T, φ,
+        scopes0, vm0, lm0⟩ stmts := by
+  have hpl := placed_of_relocate [] (cgFn G.mod φ fd stmts none scopes0 vm0 lm0) [] r
+    (by simpa using hrel) hnodup (by simp [definedLabels])
+  simp only [List.nil_append, List.append_nil, nI_nil] at hpl
+  exact
+    { name := rfl, body := hbody, params := hparams, code := hcode, placed := hpl
+      inj := fun a b ha hb h => (slotFn_inj r a b ha hb).mp h
+      vars := fun m hm => by
+        show m ∈ varNames r
+        rw [varNames_relocate _ r hrel]; exact hm
+      slot := hslot, frame := hframe, okS := okS, wsS := wsS, tParams := tParams
+      tIdents := tIdents, key := key, outer := outer, phi := phi }
 
 end HmsProofs.Sim
